@@ -4,6 +4,7 @@ import Mathlib.Tactic.FieldSimp
 import Mathlib.Tactic.Linarith
 import Mathlib.Tactic.Positivity
 import Mathlib.Analysis.SpecialFunctions.Sqrt
+import Mathlib.LinearAlgebra.SesquilinearForm.Basic
 /-!
 # C12 — generalized integrator: conserved quantities drift only O(dt)
 
@@ -13,6 +14,12 @@ whole-trajectory correspondence) the semi-implicit Euler step of the pipeline co
 modified energy `½mv² + ½kq² − ½dt·k·q·v` **exactly**; hence the mechanical energy differs from
 its initial value by `½dt·k·(q_n v_n − q_0 v_0)` and `|E_n − E_0| ≤ 2·dt·√(k/m)·Ẽ_0` whenever
 `dt²k ≤ m` — drift `O(dt)` uniformly in `n`, halving with `dt`.
+
+**n-dof generalisation** (`lin_*` theorems): for every vector space `V`, symmetric mass form `m`,
+symmetric stiffness form `k` and `A = M⁻¹K`, the same step (`linStep`, tied to the real pipeline on
+slide-only trees — constant coupled mass matrix — by whole-trajectory correspondence) conserves
+`vᵀMv + qᵀKq − dt·qᵀKv` exactly, and `|2E_n − 2E_0| ≤ 2·dt·√λ·(2Ẽ_0)` when `k ≤ λ·m`, `dt√λ ≤ 1`
+(Cauchy–Schwarz for positive semidefinite forms), uniformly in the horizon.
 
 **What is not proved** (`drift_first_order_Stmt`, kept as a comment): first-order convergence of
 the drift for an arbitrary articulated model (needs the Lagrangian identity between `M(q)` and the
@@ -131,6 +138,141 @@ example : oscStep (1 : ℚ) 4 0 (1 / 10) (1, 0) = (24 / 25, -2 / 5) := by
   simp only [oscStep]; norm_num
 
 end Real
+
+/-! ## n-dof: constant mass matrix and linear springs (every tree of slide joints with joint stiffness) -/
+section Lin
+variable {K : Type} [Field K] {V : Type} [AddCommGroup V] [Module K V]
+
+/-- twice the mechanical energy `vᵀMv + qᵀKq` -/
+def linEnergy2 (m k : LinearMap.BilinForm K V) (s : V × V) : K := m s.2 s.2 + k s.1 s.1
+/-- twice the modified energy `vᵀMv + qᵀKq − dt·qᵀKv` -/
+def linModEnergy2 (m k : LinearMap.BilinForm K V) (dt : K) (s : V × V) : K :=
+  m s.2 s.2 + k s.1 s.1 - dt * k s.1 s.2
+
+/-- **the semi-implicit Euler step of the pipeline conserves the modified energy exactly**, for every
+dimension, every symmetric mass form `m`, symmetric stiffness form `k` and `A = M⁻¹K` (`m (A x) y = k x y`) -/
+theorem lin_modEnergy_step (m k : LinearMap.BilinForm K V) (hm : ∀ x y, m x y = m y x)
+    (hk : ∀ x y, k x y = k y x) (A : V → V) (hA : ∀ x y, m (A x) y = k x y) (dt : K) (s : V × V) :
+    linModEnergy2 m k dt (linStep A dt s) = linModEnergy2 m k dt s := by
+  obtain ⟨q, v⟩ := s
+  simp only [linModEnergy2, linStep, map_add, map_smul, map_neg, LinearMap.add_apply, LinearMap.smul_apply,
+    LinearMap.neg_apply, smul_eq_mul]
+  rw [hm v (A q), hA q v, hA q (A q), hk v q, hk (A q) q, hk (A q) v, hk v (A q)]
+  ring
+
+theorem lin_modEnergy_iter (m k : LinearMap.BilinForm K V) (hm : ∀ x y, m x y = m y x)
+    (hk : ∀ x y, k x y = k y x) (A : V → V) (hA : ∀ x y, m (A x) y = k x y) (dt : K) (n : Nat) (s : V × V) :
+    linModEnergy2 m k dt (linIter A dt n s) = linModEnergy2 m k dt s := by
+  induction n generalizing s with
+  | zero => rfl
+  | succ n ih => simp only [linIter]; rw [ih, lin_modEnergy_step m k hm hk A hA]
+
+/-- exact drift of the mechanical energy after any number of steps -/
+theorem lin_energy_drift_exact (m k : LinearMap.BilinForm K V) (hm : ∀ x y, m x y = m y x)
+    (hk : ∀ x y, k x y = k y x) (A : V → V) (hA : ∀ x y, m (A x) y = k x y) (dt : K) (n : Nat) (s : V × V) :
+    linEnergy2 m k (linIter A dt n s) - linEnergy2 m k s
+      = dt * (k (linIter A dt n s).1 (linIter A dt n s).2 - k s.1 s.2) := by
+  have h := lin_modEnergy_iter m k hm hk A hA dt n s
+  simp only [linModEnergy2] at h
+  simp only [linEnergy2]
+  linear_combination h
+
+end Lin
+
+section LinReal
+variable {V : Type} [AddCommGroup V] [Module ℝ V]
+
+/-- the cross term is dominated by the energy: `|dt·k(q,v)| ≤ dt·√λ·E` when `k ≤ λ·m` -/
+theorem lin_cross_le (m k : LinearMap.BilinForm ℝ V) (hk : ∀ x y, k x y = k y x)
+    (hmp : ∀ x, 0 ≤ m x x) (hkp : ∀ x, 0 ≤ k x x) (lam : ℝ) (hlam : 0 ≤ lam) (hkm : ∀ x, k x x ≤ lam * m x x)
+    (dt : ℝ) (hdt : 0 ≤ dt) (s : V × V) :
+    |dt * k s.1 s.2| ≤ dt * Real.sqrt lam * (linEnergy2 m k s / 2) := by
+  have hsymm : k.IsSymm := ⟨fun x y => by simpa using hk x y⟩
+  have hcs := LinearMap.BilinForm.apply_sq_le_of_symm k hkp hsymm s.1 s.2
+  have hE : 0 ≤ linEnergy2 m k s := add_nonneg (hmp _) (hkp _)
+  have hrhs : 0 ≤ dt * Real.sqrt lam * (linEnergy2 m k s / 2) := by positivity
+  rw [← Real.sqrt_sq hrhs, ← Real.sqrt_sq_eq_abs]
+  apply Real.sqrt_le_sqrt
+  have hsq : (dt * Real.sqrt lam * (linEnergy2 m k s / 2)) ^ 2
+      = dt ^ 2 * lam * ((m s.2 s.2 + k s.1 s.1) / 2) ^ 2 := by
+    simp only [linEnergy2]
+    rw [mul_pow, mul_pow, Real.sq_sqrt hlam]
+  rw [hsq]
+  -- (k q v)² ≤ k q q · k v v ≤ k q q · λ m v v ≤ λ ((k q q + m v v)/2)²
+  have h1 : (k s.1 s.2) ^ 2 ≤ k s.1 s.1 * (lam * m s.2 s.2) :=
+    le_trans hcs (mul_le_mul_of_nonneg_left (hkm s.2) (hkp s.1))
+  have h2 : k s.1 s.1 * (lam * m s.2 s.2) ≤ lam * ((m s.2 s.2 + k s.1 s.1) / 2) ^ 2 := by
+    have : k s.1 s.1 * m s.2 s.2 ≤ ((m s.2 s.2 + k s.1 s.1) / 2) ^ 2 := by
+      nlinarith [sq_nonneg (m s.2 s.2 - k s.1 s.1)]
+    nlinarith [this]
+  have hdt2 : 0 ≤ dt ^ 2 := by positivity
+  calc (dt * k s.1 s.2) ^ 2 = dt ^ 2 * (k s.1 s.2) ^ 2 := by ring
+    _ ≤ dt ^ 2 * (lam * ((m s.2 s.2 + k s.1 s.1) / 2) ^ 2) :=
+        mul_le_mul_of_nonneg_left (le_trans h1 h2) hdt2
+    _ = dt ^ 2 * lam * ((m s.2 s.2 + k s.1 s.1) / 2) ^ 2 := by ring
+
+/-- **C12 for every constant-mass-matrix system with linear springs** (any number of dofs): for every
+horizon `n`, `|2E_n − 2E_0| ≤ 2·dt·√λ·(2Ẽ_0)` where `λ` bounds the stiffness against the mass
+(`k ≤ λ·m`, i.e. `λ` ≥ the largest squared natural frequency) and `dt·√λ ≤ 1`.  Uniform in `n`, linear
+in `dt`. -/
+theorem lin_energy_drift_bound (m k : LinearMap.BilinForm ℝ V) (hm : ∀ x y, m x y = m y x)
+    (hk : ∀ x y, k x y = k y x) (hmp : ∀ x, 0 ≤ m x x) (hkp : ∀ x, 0 ≤ k x x)
+    (A : V → V) (hA : ∀ x y, m (A x) y = k x y)
+    (lam : ℝ) (hlam : 0 ≤ lam) (hkm : ∀ x, k x x ≤ lam * m x x)
+    (dt : ℝ) (hdt : 0 ≤ dt) (hstep : dt * Real.sqrt lam ≤ 1) (n : Nat) (s : V × V) :
+    |linEnergy2 m k (linIter A dt n s) - linEnergy2 m k s|
+      ≤ 2 * dt * Real.sqrt lam * linModEnergy2 m k dt s := by
+  set sn := linIter A dt n s with hsn
+  have hmod : linModEnergy2 m k dt sn = linModEnergy2 m k dt s := lin_modEnergy_iter m k hm hk A hA dt n s
+  rw [lin_energy_drift_exact m k hm hk A hA dt n s]
+  have b1 := lin_cross_le m k hk hmp hkp lam hlam hkm dt hdt sn
+  have b2 := lin_cross_le m k hk hmp hkp lam hlam hkm dt hdt s
+  have hcoef : 0 ≤ dt * Real.sqrt lam := by positivity
+  -- E ≤ 2 Ẽ for both states
+  have eb : ∀ t : V × V, linEnergy2 m k t ≤ 2 * linModEnergy2 m k dt t := by
+    intro t
+    have hb := lin_cross_le m k hk hmp hkp lam hlam hkm dt hdt t
+    have hE : 0 ≤ linEnergy2 m k t := add_nonneg (hmp _) (hkp _)
+    have habs := abs_le.mp hb
+    have hmodeq : linModEnergy2 m k dt t = linEnergy2 m k t - dt * k t.1 t.2 := by
+      simp only [linModEnergy2, linEnergy2]
+    rw [hmodeq]
+    nlinarith [habs.2, hE, hcoef, hstep]
+  have e1 := eb sn
+  have e2 := eb s
+  rw [hmod] at e1
+  have hsplit : dt * (k sn.1 sn.2 - k s.1 s.2) = dt * k sn.1 sn.2 - dt * k s.1 s.2 := by ring
+  rw [hsplit]
+  calc |dt * k sn.1 sn.2 - dt * k s.1 s.2|
+      ≤ |dt * k sn.1 sn.2| + |dt * k s.1 s.2| := abs_sub _ _
+    _ ≤ dt * Real.sqrt lam * (linEnergy2 m k sn / 2) + dt * Real.sqrt lam * (linEnergy2 m k s / 2) :=
+        add_le_add b1 b2
+    _ ≤ 2 * dt * Real.sqrt lam * linModEnergy2 m k dt s := by nlinarith [hcoef, e1, e2]
+
+/-- non-vacuity (2 dofs, coupled mass matrix `[[2,1],[1,2]]`, stiffness `diag(3,5)`, `A = M⁻¹K`): the
+hypotheses of the conservation theorem hold and a step really moves -/
+noncomputable def exM : LinearMap.BilinForm ℝ (ℝ × ℝ) :=
+  LinearMap.mk₂ ℝ (fun x y => 2 * x.1 * y.1 + x.1 * y.2 + x.2 * y.1 + 2 * x.2 * y.2)
+    (by intros; simp; ring) (by intros; simp; ring) (by intros; simp; ring) (by intros; simp; ring)
+noncomputable def exK : LinearMap.BilinForm ℝ (ℝ × ℝ) :=
+  LinearMap.mk₂ ℝ (fun x y => 3 * x.1 * y.1 + 5 * x.2 * y.2)
+    (by intros; simp; ring) (by intros; simp; ring) (by intros; simp; ring) (by intros; simp; ring)
+noncomputable def exA (x : ℝ × ℝ) : ℝ × ℝ := (2 * x.1 - 5 / 3 * x.2, -x.1 + 10 / 3 * x.2)
+
+example : (∀ x y, exM x y = exM y x) ∧ (∀ x y, exK x y = exK y x) ∧ (∀ x y, exM (exA x) y = exK x y)
+    ∧ (∀ x, 0 ≤ exM x x) ∧ (∀ x, 0 ≤ exK x x) ∧ (∀ x, exK x x ≤ 5 * exM x x) := by
+  refine ⟨?_, ?_, ?_, ?_, ?_, ?_⟩ <;> intros <;> simp only [exM, exK, exA, LinearMap.mk₂_apply]
+  · ring
+  · ring
+  · ring
+  · rename_i x; nlinarith [sq_nonneg (x.1 + x.2), sq_nonneg x.1, sq_nonneg x.2]
+  · rename_i x; nlinarith [sq_nonneg x.1, sq_nonneg x.2]
+  · rename_i x; nlinarith [sq_nonneg (x.1 + x.2), sq_nonneg x.1, sq_nonneg x.2]
+
+example : linStep exA (1 / 10 : ℝ) ((1, 0), (0, 0)) = ((49 / 50, 1 / 100), (-1 / 5, 1 / 10)) := by
+  simp only [linStep, exA]; ext <;> simp <;> norm_num
+
+end LinReal
 
 /-! Full statement not proved (kept visible):
 
